@@ -96,4 +96,53 @@ theorem C03_reconcile_is_source (v : World) (k : Key2) (now : Nat) : expPlan v k
               cases hcr : Cond.has e.st.conds .created <;> cases hrun : (cnt e.st.counts 4 == 0) <;>
               simp [hc, hr, hres, hcr, hrun, hm, hsug, bne, hgt, hsc, hsr])
 
+/-! ## `ReconcileExperiment` and `ReconcileTrials` -/
+
+def expReconcileTrialsGen (v : World) (e : ExpO) (st : ExpSt) (ts : List TrialO) (now : Nat) : Prog :=
+  let G (g : Bool → Bool → Bool → Bool → Bool → Bool → Bool → Bool → Bool → Bool → Bool → Bool) : Bool :=
+    g false (!ts.isEmpty) (isCompleted st.conds) (decide (activeCount st > e.par)) (decide (activeCount st < e.par))
+      (decide (activeCount st > e.par)) (decide (addCount e st > 0)) false e.maxT.isSome false false
+  if G callDeleteTrialsGuard then .done .err          -- deleteTrials: not modelled further (DESIGN §10)
+  else if G callCreateTrialsGuard then expCreateTrials v e st ts (addCount e st) now
+  else expFinish e st
+
+def expMainGen (v : World) (e : ExpO) (st : ExpSt) (now : Nat) : Prog :=
+  if !Cond.has st.conds .created then
+    expFinish e { st with started := true, conds := Cond.set st.conds .created true rCreated now }
+  else
+    let ts := trialsOf v e.key
+    let G (completed : Bool) (g : Bool → Bool → Bool → Bool → Bool → Bool → Bool → Bool → Bool → Bool → Bool → Bool) : Bool :=
+      g false (!ts.isEmpty) completed false false false false false e.maxT.isSome false false
+    let st1 := if G false callUpdateStatusGuard then expUpdateStatus e st ts now else st
+    if G (isCompleted st1.conds) callReconcileTrialsGuard then expReconcileTrialsGen v e st1 ts now else expFinish e st1
+
+theorem C01_guards_known :
+    callUpdateStatusGuardUnknown = [] ∧ callReconcileTrialsGuardUnknown = [] ∧ callDeleteTrialsGuardUnknown = [] ∧
+    callCreateTrialsGuardUnknown = [] ∧ callUpdateStatusGuardSites = 1 ∧ callReconcileTrialsGuardSites = 1 ∧
+    callDeleteTrialsGuardSites = 1 ∧ callCreateTrialsGuardSites = 1 := by decide
+
+set_option linter.unusedSimpArgs false in
+/-- **C01_reconcile_trials_is_source**: the model's `ReconcileTrials` decision (delete / create / nothing) is the source's -/
+theorem C01_reconcile_trials_is_source (v : World) (e : ExpO) (st : ExpSt) (ts : List TrialO) (now : Nat) :
+    expReconcileTrials v e st ts now = expReconcileTrialsGen v e st ts now := by
+  unfold expReconcileTrials expReconcileTrialsGen callDeleteTrialsGuard callCreateTrialsGuard
+  by_cases h1 : activeCount st > e.par <;> by_cases h2 : activeCount st < e.par <;> by_cases h3 : addCount e st > 0 <;>
+    simp [h1, h2, h3]
+
+set_option linter.unusedSimpArgs false in
+/-- **C01_reconcile_experiment_is_source**: the model's `ReconcileExperiment` (status refresh only for a non-empty Trial list,
+    Trials reconciled only while there is no verdict) is the source's -/
+theorem C01_reconcile_experiment_is_source (v : World) (e : ExpO) (st : ExpSt) (now : Nat) :
+    expMain v e st now = expMainGen v e st now := by
+  unfold expMain expMainGen callUpdateStatusGuard callReconcileTrialsGuard
+  simp only [C01_reconcile_trials_is_source]
+  cases hcr : Cond.has st.conds .created
+  · simp [hcr]
+  · cases hts : (trialsOf v e.key).isEmpty
+    · simp only [hcr, hts, Bool.not_true, Bool.not_false, Bool.false_eq_true, Bool.true_and, Bool.and_true, if_false, if_true]
+      cases hc : isCompleted (expUpdateStatus e st (trialsOf v e.key) now).conds <;> simp [hc]
+    · simp only [hcr, hts, Bool.not_true, Bool.not_false, Bool.false_eq_true, Bool.true_and, Bool.and_true, Bool.and_false, if_false, if_true]
+      cases hc : isCompleted st.conds <;> simp [hc]
+
+
 end Katib.Gen
